@@ -2,6 +2,7 @@ import LZ4V.Proofs.SparseProof
 import LZ4V.Proofs.WRProof
 import LZ4V.Properties.C20
 import LZ4V.Proofs.LegacyProof
+import LZ4V.Proofs.CliFrameProof
 /-!
 # C04 — the CLI round-trips every file under every option set, deterministically
 
@@ -61,6 +62,21 @@ theorem legacy_archive_round_trips (E : LZ4V.Spec.FrameL.Env) (ok : LZ4V.Model.L
     ∃ a, LZ4V.Model.Legacy.archive level input = some a ∧ LZ4V.Spec.FrameL.Decodes E [] a input := by
   obtain ⟨a, ha⟩ := LZ4V.Model.Legacy.archive_succeeds level input
   exact ⟨a, ha, LZ4V.Model.Legacy.archive_decodes E ok level input a ha⟩
+
+/-- **`lz4 FILE` (default LZ4 frame format, fast levels, independent blocks, `-B4..-B7`, `-BX`, `--[no-]frame-crc`, `--content-size`) is lossless,
+    end to end**: for EVERY input the archive model (`Model/CliFrame.lean`: the single-pass `LZ4F_compressFrame_usingCDict` path with the
+    regenerated `LZ4F_optimalBSID`, the single-threaded build's streaming path with one update per block-size read; byte-identical to the real
+    `lz4` of BOTH builds on every recorded archive of that configuration) exists — in the single-threaded build for every size, in the
+    multi-threaded build below one 4 MiB chunk — and decodes, by the stream specification (what `lz4 -d` must write), to exactly the input,
+    for every hash function of the fast compressor and every checksum function -/
+theorem default_archive_round_trips (E : LZ4V.Spec.FrameL.Env) (ok : LZ4V.Model.FrameFast.EnvOK E) (hashOf : Array UInt8 → Bool → Nat → Nat) (mt : Bool)
+    (o : LZ4V.Model.CliFrame.Opts) (hr : 4 ≤ o.bsidReq ∧ o.bsidReq ≤ 7) (src : List UInt8) (hn : src.length < 256 ^ 8)
+    (h : mt = false ∨ src.length < LZ4V.Model.CliFrame.mtChunk) :
+    ∃ a, LZ4V.Model.CliFrame.archive E hashOf mt o src = some a ∧ LZ4V.Spec.FrameL.Decodes E [] a src := by
+  have hs := LZ4V.Model.CliFrame.archive_succeeds E hashOf mt o src h
+  cases ha : LZ4V.Model.CliFrame.archive E hashOf mt o src with
+  | none => rw [ha] at hs; cases hs
+  | some a => exact ⟨a, rfl, LZ4V.Model.CliFrame.archive_decodes E ok hashOf mt o hr src hn a ha⟩
 
 -- the premises are satisfiable, the sessions do something
 example : (Sparse.sparseSession [[0,0,0,0,0,0,0,0,0,0,0,0,0,0,0,0,65,66,67], [0,0,0], [], [0,0,0,0,0,0,0,0,1]]).content.length = 31 := by decide
